@@ -25,6 +25,9 @@ struct Scn {
     w: usize,
     b: usize,
     k: usize,
+    /// the consumer waits until everybody else is blocked before it drops the iterator; otherwise
+    /// it drops right after the k-th item, with the background threads in arbitrary states
+    idle: bool,
 }
 
 impl Scn {
@@ -32,7 +35,7 @@ impl Scn {
         4 * self.w + 2 * self.b + 8
     }
     fn json(&self) -> Value {
-        json!({"kind": format!("{:?}", self.kind), "workers": self.w, "buffer_size": self.b, "consume_before_drop": self.k})
+        json!({"kind": format!("{:?}", self.kind), "workers": self.w, "buffer_size": self.b, "consume_before_drop": self.k, "idle_before_drop": self.idle})
     }
     fn from_json(v: &Value) -> Scn {
         let kind = match v["kind"].as_str().unwrap() {
@@ -40,7 +43,7 @@ impl Scn {
             "Buffered" => Kind::Buffered,
             _ => Kind::Composite,
         };
-        Scn { kind, w: v["workers"].as_u64().unwrap() as usize, b: v["buffer_size"].as_u64().unwrap() as usize, k: v["consume_before_drop"].as_u64().unwrap() as usize }
+        Scn { kind, w: v["workers"].as_u64().unwrap() as usize, b: v["buffer_size"].as_u64().unwrap() as usize, k: v["consume_before_drop"].as_u64().unwrap() as usize, idle: v["idle_before_drop"].as_bool().unwrap_or(true) }
     }
     fn threads(&self) -> Vec<(ThreadKind, usize)> {
         let mut t = vec![];
@@ -135,8 +138,12 @@ fn exec(scn: Scn, n: usize, prefix: &[usize]) -> (Exec<()>, Outcome) {
                 None => break,
             }
         }
-        // the consumer goes idle: everybody else runs until blocked
-        ctl.await_quiescence();
+        if scn.idle {
+            // the consumer goes idle: everybody else runs until blocked
+            ctl.await_quiescence();
+        } else {
+            ctl.harness_point(1);
+        }
         let idle = o3.pulled.load(Ordering::SeqCst) - o3.consumed.load(Ordering::SeqCst);
         o3.idle_look.store(idle, Ordering::SeqCst);
         o3.pulled_at_drop.store(o3.pulled.load(Ordering::SeqCst), Ordering::SeqCst);
@@ -186,7 +193,7 @@ fn explore(run: &mut Run, scn: Scn, n: usize, bound: Option<usize>) -> Explored 
         run.evaluations += 1;
         run.calls += x.steps.len() as u64;
         run.compared += 1;
-        if x.preemptions() > 0 || out.idle_look > 0 {
+        if x.preemptions() > 0 || out.idle_look > 0 || out.pulled_after_drop > 0 {
             run.nontrivial += 1;
         }
         let case = || json!({"scenario": scn.json(), "upstream_items": n, "choices": x.choices(), "schedule": x.schedule(), "mode": if bound.is_some() { "bounded" } else { "states" }});
@@ -228,9 +235,10 @@ fn explore(run: &mut Run, scn: Scn, n: usize, bound: Option<usize>) -> Explored 
         e.after_drop_max = e.after_drop_max.max(out.pulled_after_drop);
         true
     };
+    let deadline = run.deadline();
     e.stats = match bound {
-        None => sched::explore_states(vec![vec![]], 2_000_000, ex, ck),
-        Some(b) => sched::explore_bounded(b, vec![vec![]], ex, ck),
+        None => sched::explore_states(deadline, vec![vec![]], 2_000_000, ex, ck),
+        Some(b) => sched::explore_bounded(b, deadline, vec![vec![]], ex, ck),
     };
     e
 }
@@ -260,29 +268,54 @@ struct Unit {
 fn units(run: &Run) -> Vec<Unit> {
     let q = run.quick();
     let mut u = vec![];
-    let ks: Vec<usize> = if q { vec![0, 1, 2] } else { vec![0, 1, 2, 3] };
-    for &k in &ks {
+    let mut add = |kind: Kind, w: usize, b: usize, k: usize, idle: bool, bound: Option<usize>| u.push(Unit { scn: Scn { kind, w, b, k, idle }, bound });
+    let kmax = if q { 2 } else { 3 };
+    // explicit-state search, consumer idles before the drop
+    for k in 0..=kmax {
         for w in 1..=3usize {
-            u.push(Unit { scn: Scn { kind: Kind::Pipe, w, b: 0, k }, bound: None });
+            if q && w == 3 && k > 1 {
+                continue;
+            }
+            add(Kind::Pipe, w, 0, k, true, None);
         }
         for b in 1..=3usize {
-            u.push(Unit { scn: Scn { kind: Kind::Buffered, w: 0, b, k }, bound: None });
+            add(Kind::Buffered, 0, b, k, true, None);
+        }
+        // composite Pipe -> Buffered as TrainLoader builds it
+        if !q || k <= 1 {
+            add(Kind::Composite, 2, 1, k, true, None);
+        }
+        if !q {
+            add(Kind::Composite, 2, 2, k, true, None);
+            add(Kind::Composite, 1, 1, k, true, None);
         }
     }
-    // composite Pipe -> Buffered as TrainLoader builds it
-    for &k in &ks {
-        u.push(Unit { scn: Scn { kind: Kind::Composite, w: 2, b: 1, k }, bound: None });
+    // explicit-state search, the consumer drops at an arbitrary moment after the k-th item
+    for k in 0..=(if q { 1 } else { 3 }) {
+        add(Kind::Pipe, 2, 0, k, false, None);
+        add(Kind::Buffered, 0, 2, k, false, None);
         if !q {
-            u.push(Unit { scn: Scn { kind: Kind::Composite, w: 2, b: 2, k }, bound: None });
-            u.push(Unit { scn: Scn { kind: Kind::Composite, w: 1, b: 1, k }, bound: None });
+            add(Kind::Pipe, 3, 0, k, false, None);
+            add(Kind::Pipe, 1, 0, k, false, None);
+            add(Kind::Buffered, 0, 1, k, false, None);
+            add(Kind::Buffered, 0, 3, k, false, None);
+        }
+        if !q || k == 0 {
+            add(Kind::Composite, 2, 1, k, false, None);
         }
     }
     // stateless cross-check without state merging
-    let bound = if q { 2 } else { 3 };
-    for &k in &ks {
-        u.push(Unit { scn: Scn { kind: Kind::Pipe, w: 2, b: 0, k }, bound: Some(bound) });
-        u.push(Unit { scn: Scn { kind: Kind::Buffered, w: 0, b: 2, k }, bound: Some(bound) });
-        u.push(Unit { scn: Scn { kind: Kind::Composite, w: 2, b: 1, k }, bound: Some(if q { 1 } else { 2 }) });
+    if q {
+        add(Kind::Pipe, 2, 0, 1, true, Some(2));
+        add(Kind::Buffered, 0, 2, 1, true, Some(2));
+        add(Kind::Composite, 2, 1, 0, true, Some(1));
+    } else {
+        for k in 0..=2 {
+            add(Kind::Pipe, 2, 0, k, true, Some(3));
+            add(Kind::Pipe, 2, 0, k, false, Some(3));
+            add(Kind::Buffered, 0, 2, k, true, Some(3));
+            add(Kind::Composite, 2, 1, k, true, Some(if k == 0 { 2 } else { 1 }));
+        }
     }
     u
 }
@@ -447,13 +480,13 @@ fn main() {
         let mut v = vec![];
         for w in 1..=2usize {
             for p in 0..=2usize {
-                v.push((Scn { kind: Kind::Pipe, w, b: 0, k: 0 }, 3usize, p));
+                v.push((Scn { kind: Kind::Pipe, w, b: 0, k: 0, idle: true }, 3usize, p));
             }
         }
         if !run.quick() {
             for p in 0..=2usize {
-                v.push((Scn { kind: Kind::Pipe, w: 3, b: 0, k: 0 }, 3usize, p));
-                v.push((Scn { kind: Kind::Composite, w: 2, b: 1, k: 0 }, 3usize, p));
+                v.push((Scn { kind: Kind::Pipe, w: 3, b: 0, k: 0, idle: true }, 3usize, p));
+                v.push((Scn { kind: Kind::Composite, w: 2, b: 1, k: 0, idle: true }, 3usize, p));
             }
         }
         v
@@ -490,6 +523,11 @@ fn main() {
             run.count_n(if u.bound.is_some() { "bounded:executions" } else { "states:executions" }, e.stats.executions);
             info.push(json!({"upstream_items": n, "executions": e.stats.executions, "states": e.stats.states, "transitions": e.stats.transitions, "max_lookahead": e.max_look,
                 "idle_lookaheads": e.idle_set, "max_pulled_after_drop": e.after_drop_max, "completed": !e.stats.stopped_early}));
+            if e.stats.out_of_time {
+                run.capped = Some(format!("time budget reached in {:?} upstream {n}", scn));
+                failed = true; // no lookahead verdict from an incomplete exploration
+                break;
+            }
             if e.failed {
                 failed = true;
                 break;
